@@ -103,6 +103,10 @@ impl<'a, H> PacketBuffer<'a, H> {
             } else {
                 // Add padding to the end of the ring buffer so that the
                 // contiguous window is at the beginning of the ring buffer.
+                // The padding and the packet take one metadata entry each.
+                if self.metadata_ring.window() < 2 {
+                    return Err(Full);
+                }
                 *self.metadata_ring.enqueue_one()? = PacketMetadata::padding(contig_window);
                 // note(discard): function does not write to the result
                 // enqueued padding buffer location
@@ -153,6 +157,10 @@ impl<'a, H> PacketBuffer<'a, H> {
             } else {
                 // Add padding to the end of the ring buffer so that the
                 // contiguous window is at the beginning of the ring buffer.
+                // The padding and the packet take one metadata entry each.
+                if self.metadata_ring.window() < 2 {
+                    return Err(Full);
+                }
                 *self.metadata_ring.enqueue_one()? = PacketMetadata::padding(contig_window);
                 // note(discard): function does not write to the result
                 // enqueued padding buffer location
